@@ -29,7 +29,10 @@ AnyFnGen = Callable[..., T]
 MaybeAwaitable = Union[Awaitable[T], T]
 
 
-def _call_in_thread(fn: AnyFnGen[T], *args: Any, **kwargs: Any) -> T:
+def _call_in_thread(*args: Any, **kwargs: Any) -> Any:
+    # (the callable comes first; no named parameter, keyword arguments are the
+    # callable's and may have any name)
+    fn, args = args[0], args[1:]
     # StopIteration cannot be set on a future: depending on the Python version
     # the awaiting side hangs or takes the exception's value for a result.
     # Same conversion as PEP 479 applies to generators.
